@@ -6,6 +6,7 @@
 //
 ///////////////////////////////////////////////////////////////////////////////
 #define CPPCMS_SOURCE
+#include <booster/verif_hooks.h>
 #include "tcp_messenger.h"
 #include <cppcms/cppcms_error.h>
 
@@ -77,6 +78,7 @@ void messenger::transmit(tcp_operation_header &h,std::string &data)
 			if(!er)
 				socket_.connect(ep,er);
 			if(er) throw cppcms_error("reconnect:"+er.message());
+			CPPCMS_VERIF_PROBE("messenger.reconnect_and_retry");
 			h = request;
 			times++;
 		}
